@@ -124,7 +124,11 @@ func genAcctW(r *core.Rand, p *core.Plan) {
 		switch r.Weighted([]int{14, 14, 8, 16, 12, 6, 8, 6, 5, 6, 5, 4}) {
 		case 0: // preview
 			lastVariant = int64(r.Intn(len(importVariants)))
-			p.Ops = append(p.Ops, core.Op{K: "importdry2", A: []int64{lastVariant, int64(r.Range(1, 4)), int64(r.Intn(4))}})
+			nprev := int64(r.Range(1, 4))
+			if r.Chance(1, 4) {
+				nprev = 99 // a preview that fails half way
+			}
+			p.Ops = append(p.Ops, core.Op{K: "importdry2", A: []int64{lastVariant, nprev, int64(r.Intn(4))}})
 		case 1: // import, often into the scope the last preview used, with another key or format
 			v := lastVariant
 			if r.Chance(1, 2) {
@@ -250,6 +254,12 @@ func (rs *runState) importdry2(step int, op core.Op) {
 	n := uint32(op.Arg(1))
 	if n < 1 || n > 5 {
 		n = 2
+	}
+	if op.Arg(1) == 99 {
+		// more addresses than an account can hold: the preview fails after
+		// the account has been created in its (rolled-back) transaction
+		n = 1 << 31
+		x.env.Count("probe.preview-that-fails")
 	}
 	at := importVariants[v].at
 	rs.previews++
